@@ -31,7 +31,12 @@ Pay  == [p0   |-> <<>>,
          p7   |-> <<97, 98, 99, 100, 101, 102, 103>>,
          p8   |-> <<97, 98, 99, 100, 101, 102, 103, 104>>,
          p9   |-> <<255, 254, 0, 1, 128, 127, 255, 255, 255>>,
-         p200 |-> [i \in 1..200 |-> (i * 7 + 3) % 256]]
+         p200 |-> [i \in 1..200 |-> (i * 7 + 3) % 256],
+         \* what a FIRST fragment carries after the IPv4 header: the transport header of the
+         \* whole datagram (its length / checksum cover octets that are in later fragments)
+         pu1  |-> <<3, 232, 7, 208, 11, 192, 190, 239>> \o [i \in 1..16 |-> 47 + i],  \* UDP 1000>2000 len 3008
+         pt1  |-> <<3, 232, 7, 208, 1, 2, 3, 4, 5, 6, 7, 8, 80, 16, 3, 232, 171, 205, 0, 0>>
+                  \o [i \in 1..12 |-> 64 + i]]                                          \* TCP 1000>2000
 
 MacSyms == DOMAIN MacB
 IpSyms  == DOMAIN IpB
@@ -41,8 +46,11 @@ PaySyms == DOMAIN Pay
 \* et    : "ip" (0x0800) | "arp" (0x0806) | "oth" (0x88b5, opaque payload) |
 \*         "bpdu" (802.3 length + LLC 42-42-03 + 35 octets)
 \* proto : "tcp" | "udp" | "icmp" | "x" (protocol 253, opaque) | "-" (not IPv4)
-\* frag  : 0 = not a fragment (DF), 1 = first fragment (MF, offset 0, the L4
-\*         header is present), 2 = later fragment (offset 185, no L4 header)
+\* frag  : 0 = not a fragment (DF), 1 = first fragment (MF, offset 0), 2 = later
+\*         fragment (offset 185).  What follows the IPv4 header of a fragment is
+\*         opaque (the payload symbol): OpenFlow 1.0 gives fragments no transport
+\*         ports (section 3.4), and the transport length / checksum of a first
+\*         fragment describe the whole datagram, not this frame.
 \* Fields that do not exist in a frame have fixed values (canonical records):
 \* untagged => vid = pcp = cfi = 0; not IPv4 => tos = 0, nsrc = ndst = proto = "-",
 \* frag = 0; no TCP/UDP header => tsrc = tdst = 0.
@@ -51,7 +59,7 @@ Mk(dst, src, tag, vid, pcp, cfi, et, tos, nsrc, ndst, proto, frag, tsrc, tdst, p
    et |-> et, tos |-> tos, nsrc |-> nsrc, ndst |-> ndst, proto |-> proto,
    frag |-> frag, tsrc |-> tsrc, tdst |-> tdst, pl |-> pl]
 
-HasL4Ports(f) == f.et = "ip" /\ f.proto \in {"tcp", "udp"} /\ f.frag # 2
+HasL4Ports(f) == f.et = "ip" /\ f.proto \in {"tcp", "udp"} /\ f.frag = 0
 
 FrameOK(f) ==
   /\ f.dst \in MacSyms /\ f.src \in MacSyms /\ f.tag \in BOOLEAN
@@ -77,8 +85,11 @@ RewriteTypes == {"set_vlan_vid", "set_vlan_pcp", "strip_vlan", "set_dl_src", "se
 \* OpenFlow 1.0 section 3.3 / ofp_action_*: a VLAN id or priority set on an
 \* untagged frame pushes a tag whose other field is zero; strip removes the
 \* tag; nw_* apply to IPv4 only; nw_tos replaces the six DSCP bits and leaves
-\* the two low (ECN) bits; tp_* apply to TCP and UDP headers only (a later
-\* fragment has none).  Outputs do not change the frame.
+\* the two low (ECN) bits; tp_* apply to TCP and UDP headers of unfragmented
+\* packets only.  Outputs do not change the frame.
+\* (Rewriting nw_src/nw_dst of a FIRST fragment would also have to patch the
+\* transport checksum it carries, and whether tp_* reach into a first fragment
+\* is not settled by the standard: Datapath!InModel keeps both cases out.)
 Apply(a, f) ==
   CASE a.t = "set_vlan_vid" -> [f EXCEPT !.tag = TRUE, !.vid = a.n]
     [] a.t = "set_vlan_pcp" -> [f EXCEPT !.tag = TRUE, !.pcp = a.n]
@@ -95,7 +106,7 @@ Apply(a, f) ==
 
 \* ---- lengths ---------------------------------------------------------------
 PLen(f) == Len(Pay[f.pl])
-L4Len(f) == IF f.frag = 2 THEN PLen(f)
+L4Len(f) == IF f.frag # 0 THEN PLen(f)
             ELSE CASE f.proto = "tcp"  -> 20 + PLen(f)
                    [] f.proto = "udp"  -> 8 + PLen(f)
                    [] f.proto = "icmp" -> 8 + PLen(f)
@@ -138,7 +149,7 @@ IcmpBytes(f) ==
   LET pl == Pay[f.pl]
       c  == Csum(<<8, 0, 0, 0, 0, 7, 0, 9>> \o pl)  \* echo request id 7 seq 9
   IN <<8, 0>> \o U16(c) \o <<0, 7, 0, 9>> \o pl
-L4Bytes(f) == IF f.frag = 2 THEN Pay[f.pl]
+L4Bytes(f) == IF f.frag # 0 THEN Pay[f.pl]
               ELSE CASE f.proto = "tcp"  -> TcpBytes(f)
                      [] f.proto = "udp"  -> UdpBytes(f)
                      [] f.proto = "icmp" -> IcmpBytes(f)
@@ -167,8 +178,8 @@ EncOK(f) ==
      /\ (f.et = "ip" =>
            /\ Verifies(SubSeq(l3, 1, 20))                               \* IPv4 header checksum
            /\ l3[3] * 256 + l3[4] = Len(l3)                             \* total length
-           /\ (f.frag # 2 /\ f.proto \in {"tcp", "udp"} =>
+           /\ (f.frag = 0 /\ f.proto \in {"tcp", "udp"} =>
                  Verifies(Pseudo(f, Len(l3) - 20) \o SubSeq(l3, 21, Len(l3))))
-           /\ (f.frag # 2 /\ f.proto = "udp" => l3[25] * 256 + l3[26] = Len(l3) - 20)
-           /\ (f.frag # 2 /\ f.proto = "icmp" => Verifies(SubSeq(l3, 21, Len(l3)))))
+           /\ (f.frag = 0 /\ f.proto = "udp" => l3[25] * 256 + l3[26] = Len(l3) - 20)
+           /\ (f.frag = 0 /\ f.proto = "icmp" => Verifies(SubSeq(l3, 21, Len(l3)))))
 =============================================================================
